@@ -15,7 +15,13 @@ from bs4.builder._htmlparser import HTMLParserTreeBuilder
 from bs4.exceptions import ParserRejectedMarkup
 import common
 
-RULE = ("(0) find_declared_encoding on its own (implementation / scanner model / index-level oracle): every string of <=4 "
+RULE = ("(H) call hygiene: in every batch empty arguments are omitted (the API's default object is used), passed as None or as a "
+        "fresh list by a rule depending on the case; after every call the caller-owned argument lists and the default argument "
+        "values of UnicodeDammit / EncodingDetector / prepare_markup / the constructors must be unchanged; call histories: seeded "
+        "sequences of 3-8 UnicodeDammit / EncodingDetector calls in one process over 9 documents, with caller-owned known / user / "
+        "exclude lists reused between calls, omitted or fresh, and the deprecated override_encodings now and then - every call is "
+        "judged by the history-free oracle on its own arguments; "
+        "(0) find_declared_encoding on its own (implementation / scanner model / index-level oracle): every string of <=4 "
         "(thorough <=5) tokens over alphabets of the pieces the two patterns look at (<, meta, charset, =, quotes, terminators, white "
         "space, <?, encoding=, ?>, newline; upper/mixed case; for str patterns also NBSP, U+001C, U+0085, long s, dotted/dotless i; the "
         "same as UTF-8/Latin-1 bytes), 15 <meta> and 7 XML spellings x 4 names pushed across the 2048 / 1024 borders one position at a "
@@ -326,29 +332,111 @@ def arg(l, none_if_empty):
     return None if (none_if_empty and not l) else list(l)
 
 
+# ---- call hygiene: how arguments reach the API, and what a call may not touch -----------------------------
+def api_defaults():
+    """The default argument values of the entry points. A mutable default is one object shared by every call that
+    omits the argument: if a call changes it, all later calls in the process are affected."""
+    fs = [UnicodeDammit.__init__, EncodingDetector.__init__, EncodingDetector.find_declared_encoding.__func__,
+          EncodingDetector.strip_byte_order_mark.__func__, HTMLParserTreeBuilder.prepare_markup,
+          HTMLParserTreeBuilder.__init__, BeautifulSoup.__init__]
+    return repr([(f.__qualname__, f.__defaults__, f.__kwdefaults__) for f in fs])
+
+
+API_DEFAULTS_SEEN = [api_defaults()]
+_API_FUNCS = [UnicodeDammit.__init__, EncodingDetector.__init__, HTMLParserTreeBuilder.prepare_markup,
+              HTMLParserTreeBuilder.__init__, BeautifulSoup.__init__]
+_API_BASELINE = [[(d, list(d)) for d in (f.__defaults__ or ()) if isinstance(d, list)] for f in _API_FUNCS]
+
+
+def restore_api_defaults():
+    """put list-valued defaults back to what they were at import (so that a sequence of calls starts from a clean
+    process state and its replay in a fresh process reproduces it)"""
+    for pairs in _API_BASELINE:
+        for obj, orig in pairs:
+            obj[:] = orig
+    API_DEFAULTS_SEEN[0] = api_defaults()
+SIDE_EFFECTS = []          # (what, observed, expected, tag) of the call just made; drained by the caller
+
+
+def call_style(case):
+    """0: empty arguments are omitted (the API's own default is used); 1: passed as None; 2: passed as a fresh [].
+    Depends only on the case, so a replay makes the same call."""
+    if case.get("none_args"):
+        return 1
+    d = case["data"]
+    return (len(d) + 3 * len(case["known"]) + 5 * len(case["exclude"]) + 7 * len(case["user"])) % 3
+
+
+def call_args(case, params):
+    """keyword arguments for this call, and the caller-owned list objects to look at afterwards"""
+    st = call_style(case)
+    kw, owned = {}, []
+    for param, key in params:
+        v = case[key]
+        if v:
+            lst = list(v)
+            kw[param] = lst
+            owned.append((param, lst, list(v)))
+        elif key == "override" or st == 0:
+            pass
+        elif st == 1:
+            kw[param] = None
+        else:
+            lst = []
+            kw[param] = lst
+            owned.append((param, lst, []))
+    return kw, owned
+
+
+def after_call(owned):
+    for param, lst, want in owned:
+        if lst != want:
+            SIDE_EFFECTS.append(("the caller's %s list was modified by the call (reusing it gives a different precedence)" % param,
+                                 list(lst), want, "arg-mutated"))
+    snap = api_defaults()
+    if snap != API_DEFAULTS_SEEN[0]:
+        SIDE_EFFECTS.append(("a default argument value of the API was modified by this call: every later call that omits "
+                             "the argument is affected", snap, API_DEFAULTS_SEEN[0], "default-mutated"))
+        API_DEFAULTS_SEEN[0] = snap          # reported once, at the call that did it
+
+
+def drain_side_effects(ctx, cj):
+    while SIDE_EFFECTS:
+        what, observed, expected, tag = SIDE_EFFECTS.pop(0)
+        ctx.fail(cj, what, observed, expected, tag=tag)
+
+
+DAMMIT_PARAMS = (("known_definite_encodings", "known"), ("exclude_encodings", "exclude"), ("user_encodings", "user"),
+                 ("override_encodings", "override"))
+
+
 def run_dammit(case):
+    kw, owned = call_args(case, DAMMIT_PARAMS)
     try:
-        ne = case.get("none_args", False)
-        d = UnicodeDammit(case["data"], known_definite_encodings=arg(case["known"], ne), is_html=case["is_html"],
-                          exclude_encodings=arg(case["exclude"], ne), user_encodings=arg(case["user"], ne),
-                          override_encodings=arg(case["override"], True))
-        return {"text": d.unicode_markup, "orig": d.original_encoding, "flag": d.contains_replacement_characters,
-                "declared": d.declared_html_encoding,
-                "tried": [[c, MODE_ID.get(m, m)] for c, m in d.tried_encodings], "markup": d.markup,
-                "sniffed": d.detector.sniffed_encoding, "cands": list(d.detector.encodings)}
+        d = UnicodeDammit(case["data"], is_html=case["is_html"], **kw)
+        obs = {"text": d.unicode_markup, "orig": d.original_encoding, "flag": d.contains_replacement_characters,
+               "declared": d.declared_html_encoding,
+               "tried": [[c, MODE_ID.get(m, m)] for c, m in d.tried_encodings], "markup": d.markup,
+               "sniffed": d.detector.sniffed_encoding, "cands": list(d.detector.encodings)}
     except Exception as e:
-        return "EXC:" + type(e).__name__ + ":" + str(e)[:80]
+        obs = "EXC:" + type(e).__name__ + ":" + str(e)[:80]
+    after_call(owned)
+    return obs
 
 
 def run_detector(case):
+    kw, owned = call_args(case, DAMMIT_PARAMS)
     try:
-        ne = case.get("none_args", False)
-        det = EncodingDetector(case["data"], arg(case["known"], ne), case["is_html"], arg(case["exclude"], ne),
-                               arg(case["user"], ne), arg(case["override"], True))
+        det = EncodingDetector(case["data"], is_html=case["is_html"], **kw)
         cands = list(det.encodings)
-        return {"cands": cands, "sniffed": det.sniffed_encoding, "markup": det.markup, "declared": det.declared_encoding}
+        again = list(det.encodings)
+        if again != cands:
+            SIDE_EFFECTS.append(("iterating detector.encodings a second time gives a different list", again, cands, "candidates"))
+        obs = {"cands": cands, "sniffed": det.sniffed_encoding, "markup": det.markup, "declared": det.declared_encoding}
     except Exception as e:
-        return "EXC:" + type(e).__name__ + ":" + str(e)[:80]
+        obs = "EXC:" + type(e).__name__ + ":" + str(e)[:80]
+    after_call(owned)
+    return obs
 
 
 class RecBuilder(HTMLParserTreeBuilder):
@@ -368,9 +456,14 @@ def run_ctor(case):
     b = RecBuilder()
     b.recorded = []
     fe = case["known"][0] if case["known"] else None
+    kw, owned = call_args(case, (("exclude_encodings", "exclude"),))
+    if fe is not None or call_style(case) == 1:
+        kw["from_encoding"] = fe
     try:
-        soup = BeautifulSoup(case["data"], builder=b, from_encoding=fe,
-                             exclude_encodings=arg(case["exclude"], case.get("none_args", False)))
+        try:
+            soup = BeautifulSoup(case["data"], builder=b, **kw)
+        finally:
+            after_call(owned)
     except ParserRejectedMarkup:
         if not b.recorded:
             return "REJECTED"
@@ -1137,6 +1230,7 @@ def run_cases(ctx, cases, label, detector=True, dammit=True, ctor=True, budget_n
         key = case_key(case)
         if dammit:
             obs = run_dammit(case)
+            drain_side_effects(ctx, dict(case_json(case), api="UnicodeDammit"))
             ctx.case(("dammit",) + key, nontrivial=nontrivial(case))
             check_oracle(ctx, case, obs, "UnicodeDammit")
             if not isinstance(obs, str) and isinstance(case["data"], bytes) and case["data"] != b"" and \
@@ -1150,12 +1244,14 @@ def run_cases(ctx, cases, label, detector=True, dammit=True, ctor=True, budget_n
             continue                      # long documents: UnicodeDammit only (the model's tables carry the bytes)
         if detector and isinstance(case["data"], bytes):
             obs = run_detector(case)
+            drain_side_effects(ctx, dict(case_json(case), api="EncodingDetector"))
             ctx.case(("detector",) + key, nontrivial=nontrivial(case))
             check_detector_oracle(ctx, case, obs)
             todo.append(("detector", case, obs))
             cmds.append(cmd_detector(case, texts))
         if ctor and ctor_ok(case):
             obs = run_ctor(case)
+            drain_side_effects(ctx, dict(case_json(case), api="BeautifulSoup"))
             ctx.case(("ctor",) + key, nontrivial=nontrivial(case))
             if obs == "REJECTED":
                 exp = o_expect(case)
@@ -1383,11 +1479,104 @@ def sniff_fuzz(ctx):
     sniff_batch(ctx, items, "sniff_fuzz")
 
 
+
+# ---------------------------------------------------------------------------------------------------------
+# call histories: the answer of a call depends on that call's own arguments only
+# ---------------------------------------------------------------------------------------------------------
+HIST_DOCS = ["<p>Sacré bleu ☃ Räksmörgås</p>".encode("utf-8"), "<p>café “quoted”</p>".encode("windows-1252"),
+             b"<p>\xed\xe5\xec\xf9</p>", b"<p>plain</p>", b"\xef\xbb\xbf<p>caf\xc3\xa9</p>",
+             b'<html><head><meta charset="iso-8859-1"></head><body>caf\xe9</body></html>',
+             b'<?xml version="1.0" encoding="koi8-r"?><p>\xd0\xd2\xc9\xd7\xc5\xd4</p>', b"\xff\xfea\x00b\x00", b"<p>\x81\x8d</p>"]
+HIST_ENCS = ["iso-8859-1", "iso-8859-8", "ascii", "utf-8", "koi8-r", "windows-1252", "bogus-8", "utf-16le", "ISO-8859-5", "cp437"]
+HIST_PARAMS = (("known_definite_encodings", "known"), ("user_encodings", "user"), ("exclude_encodings", "exclude"))
+
+
+def history_step(step, shared):
+    """Make the call described by `step` (json-able). Lists marked `shared` are the sequence's caller-owned list
+    objects, reused from call to call. Returns (case for the history-free oracle, observation)."""
+    data = bytes.fromhex(step["data_hex"])
+    kw, intended = {}, {}
+    for param, key in HIST_PARAMS:
+        mode, vals = step[key]
+        intended[key] = list(vals)
+        if mode == "none":
+            kw[param] = None
+        elif mode == "shared":
+            kw[param] = shared[key]
+        elif mode == "fresh":
+            kw[param] = list(vals)
+    if step["override"]:
+        kw["override_encodings"] = list(step["override"])
+    stripped, _ = o_strip_bom(data)
+    case = mkcase(data, intended["known"], intended["user"], intended["exclude"], step["override"], step["is_html"],
+                  o_find_declared(stripped, step["is_html"], False))
+    try:
+        if step["api"] == "UnicodeDammit":
+            d = UnicodeDammit(data, is_html=step["is_html"], **kw)
+            obs = {"text": d.unicode_markup, "orig": d.original_encoding, "flag": d.contains_replacement_characters,
+                   "declared": d.declared_html_encoding, "tried": [[c, MODE_ID.get(m, m)] for c, m in d.tried_encodings],
+                   "cands": list(d.detector.encodings)}
+        else:
+            det = EncodingDetector(data, is_html=step["is_html"], **kw)
+            obs = {"cands": list(det.encodings), "sniffed": det.sniffed_encoding, "markup": det.markup,
+                   "declared": det.declared_encoding}
+    except Exception as e:
+        obs = "EXC:" + type(e).__name__ + ":" + str(e)[:80]
+    return case, obs
+
+
+def history_check(ctx, step, shared, shared_orig, hist):
+    case, obs = history_step(step, shared)
+    case["history"] = {"shared_lists": shared_orig, "earlier_calls": list(hist), "this_call": step}
+    case["note"] = "call %d of a sequence in one process" % (len(hist) + 1)
+    ctx.case(("history", json.dumps(step, sort_keys=True), len(hist)), nontrivial=True)
+    if step["api"] == "UnicodeDammit":
+        check_oracle(ctx, case, obs, "UnicodeDammit")
+    else:
+        check_detector_oracle(ctx, case, obs)
+    for key in shared:
+        if shared[key] != shared_orig[key]:
+            ctx.fail(dict(case_json(case), api=step["api"]),
+                     "the caller's %s list was modified by the call (the caller reuses it for the next call)" % key,
+                     list(shared[key]), shared_orig[key], tag="arg-mutated")
+            shared[key][:] = shared_orig[key]
+    after_call([])
+    drain_side_effects(ctx, dict(case_json(case), api=step["api"]))
+    return obs
+
+
+def history_batch(ctx):
+    rng = ctx.rng
+    n = 0
+    for _ in range(1500 if ctx.thorough else 150):
+        shared_orig = {"known": [rng.choice(HIST_ENCS) for _ in range(rng.choice([0, 1, 1, 2]))],
+                       "user": [rng.choice(HIST_ENCS) for _ in range(rng.choice([0, 1, 1]))],
+                       "exclude": [rng.choice(["utf-8", "windows-1252", "iso-8859-1", "UTF-8", "ascii"])
+                                   for _ in range(rng.choice([0, 0, 1]))]}
+        shared = {k: list(v) for k, v in shared_orig.items()}
+        hist = []
+        restore_api_defaults()
+        for _ in range(rng.randint(3, 8)):
+            step = {"api": rng.choice(["UnicodeDammit", "UnicodeDammit", "EncodingDetector"]),
+                    "data_hex": rng.choice(HIST_DOCS).hex(), "is_html": rng.random() < 0.7,
+                    "override": [rng.choice(HIST_ENCS)] if rng.random() < 0.3 else []}
+            for _, key in HIST_PARAMS:
+                mode = rng.choice(["omit", "omit", "none", "shared", "shared", "fresh"])
+                vals = shared_orig[key] if mode == "shared" else \
+                    ([rng.choice(HIST_ENCS)] if (mode == "fresh" and rng.random() < 0.7) else [])
+                step[key] = [mode, list(vals)]
+            history_check(ctx, step, shared, shared_orig, hist)
+            hist.append(step)
+            n += 1
+    ctx.count("history_calls", n)
+    ctx.sample({"batch": "history", "shared_lists": shared_orig, "calls": hist[:3]})
+
 def run(ctx):
     with warnings.catch_warnings():
         warnings.simplefilter("ignore")
         run_cases(ctx, corpus_cases(), "corpus")
         run_cases(ctx, directed_cases(ctx), "directed")
+        history_batch(ctx)
         sniff_token_sweeps(ctx)
         sniff_documents(ctx)
         sniff_fuzz(ctx)
@@ -1415,6 +1604,23 @@ def run(ctx):
 def replay(ctx, data):
     f = (data.get("failure") or {})
     cj = f.get("case") or ((data.get("disagreements") or [{}])[0].get("case")) or {}
+    if cj.get("history"):
+        h = cj["history"]
+        shared = {k: list(v) for k, v in h["shared_lists"].items()}
+        with warnings.catch_warnings():
+            warnings.simplefilter("ignore")
+            print("caller-owned lists reused between the calls:", h["shared_lists"])
+            for i, step in enumerate(h["earlier_calls"] + [h["this_call"]]):
+                case, obs = history_step(step, shared)
+                e = o_expect(case)
+                e.pop("stripped", None)
+                print("call %d: %s(%r, known=%r user=%r exclude=%r override=%r is_html=%r)" % (
+                    i + 1, step["api"], bytes.fromhex(step["data_hex"])[:40], step["known"], step["user"], step["exclude"],
+                    step["override"], step["is_html"]))
+                print("   ->", show(obs))
+                print("   its own arguments require:", show(e))
+                print("   shared lists afterwards:", shared, "| API defaults unchanged:", api_defaults() == API_DEFAULTS_SEEN[0])
+        return 1
     if cj.get("sniff"):
         if cj.get("data_hex") is not None:
             data = bytes.fromhex(cj["data_hex"])
@@ -1442,6 +1648,8 @@ def replay(ctx, data):
         warnings.simplefilter("ignore")
         print("case:", {k: v for k, v in case_json(case).items()})
         print("UnicodeDammit:", show(run_dammit(case)))
+        print("side effects of that call:", SIDE_EFFECTS or "none")
+        del SIDE_EFFECTS[:]
         if isinstance(case["data"], bytes):
             print("EncodingDetector:", show(run_detector(case)))
         if ctor_ok(case):
